@@ -153,7 +153,7 @@ pub proof fn lemma_fm_char(w: World, t: int, lim: int)
         lemma_fm_char(w, t + 1, lim);
     }
 }
-/// the `@trusted` contract of `find_bit_in_bucket` in the "least position" form the Kani harness asserts
+/// the contract of `find_bit_in_bucket` in the "least position" form (which the Kani harness asserts as well)
 pub proof fn lemma_fbb_char(s: Seq<u32>, t: int)
     requires 0 <= t,
     ensures
